@@ -97,26 +97,32 @@ Symmetric(C) == C = Tr(C)
 (***************************************************************************)
 (* Checked on every element / edge of the ball                             *)
 (***************************************************************************)
-Faithful ==
-  \A k \in KindsOf(cm) : (Eval(CartanOf(cm, k), ElementId(cls)) = Ident(Rank(cm))) <=> (cls = Id0)
+\* the image is the identity matrix only at the identity element
+Faithful(X) == (X = Ident(Rank(cm))) <=> (cls = Id0)
+\* X^T C X = C for a symmetric Cartan matrix C = 2B
+FormPreserved(C, X) == Symmetric(C) => Mul(Tr(X), Mul(C, X)) = C
+\* the dual representation is the transposed inverse
+DualOK(X, XT) == Mul(Tr(XT), X) = Ident(Rank(cm))
 
-FormPreserved ==
-  \A k \in KindsOf(cm) :
-    LET C == CartanOf(cm, k)
-        X == Eval(C, ElementId(cls))
-    IN Symmetric(C) => Mul(Tr(X), Mul(C, X)) = C
+\* INVARIANT: the three laws on the exact image of every element, for every integral kind
+RepInv ==
+  LET id == ElementId(cls)
+  IN \A k \in KindsOf(cm) :
+       LET C  == CartanOf(cm, k)
+           X  == Eval(C, id)
+           XT == EvalT(C, id)
+       IN /\ Assert(Faithful(X), <<"Faithful", cm, k, id>>)
+          /\ Assert(FormPreserved(C, X), <<"FormPreserved", cm, k, id>>)
+          /\ Assert(DualOK(X, XT), <<"DualOK", cm, k, id>>)
 
-DualOK ==
-  \A k \in KindsOf(cm) :
-    LET C == CartanOf(cm, k)
-    IN Mul(Tr(EvalT(C, ElementId(cls))), Eval(C, ElementId(cls))) = Ident(Rank(cm))
-
-\* ACTION_CONSTRAINT: the linear representation closes up along every edge of the Cayley graph
+\* ACTION_CONSTRAINT: the linear representation closes up along every edge of the Cayley graph,
+\* i.e. it agrees with Tits' solution of the word problem
 RepClosed ==
-  \A k \in KindsOf(cm) :
-    LET C == CartanOf(cm, k)
-    IN Assert(Mul(Eval(C, ElementId(cls)), Refl(C, last')) = Eval(C, ElementId(cls')),
-              <<"RepClosed", cm, k, cls, last'>>)
+  LET idf == ElementId(cls)
+      idt == ElementId(cls')
+  IN \A k \in KindsOf(cm) :
+       LET C == CartanOf(cm, k)
+       IN Assert(Mul(Eval(C, idf), Refl(C, last')) = Eval(C, idt), <<"RepClosed", cm, k, idf, last'>>)
 
 (***************************************************************************)
 (* Signature of the cosine form, where integers decide it                  *)
@@ -156,16 +162,17 @@ SigType(M) ==
 (* Emission                                                                *)
 (***************************************************************************)
 \* per element: exact images
-ObsRep == [m |-> mi, id |-> ElementId(cls),
-           reps |-> [k \in KindsOf(cm) |-> Eval(CartanOf(cm, k), ElementId(cls))],
-           dual |-> IF Applicable(cm, "geo") THEN EvalT(CartanOf(cm, "geo"), ElementId(cls)) ELSE <<>>]
+ObsRep == LET id == ElementId(cls)
+          IN [m |-> mi, id |-> id,
+              reps |-> [k \in KindsOf(cm) |-> Eval(CartanOf(cm, k), id)],
+              dual |-> IF Applicable(cm, "geo") THEN EvalT(CartanOf(cm, "geo"), id) ELSE <<>>]
 EmitRep == PrintT("OBS " \o ToJson(ObsRep))
 
 \* per matrix (printed at the identity): Cartan matrices, parameters, relators with orders, signature
 Info == [m |-> mi, M |-> cm, sig |-> SigType(cm),
          cartan |-> [k \in KindsOf(cm) |-> CartanOf(cm, k)],
          params |-> [k \in KindsOf(cm) \cap {"tvs", "tva"} |-> ParamsOf(cm, k)],
-         relators |-> Relators(cm),
+         relators |-> Relators(cm), orderbound |-> OrderBound,
          infinite |-> {p \in Pairs(cm) : cm[p[1]][p[2]] = 0}]
 EmitInfo == cls = Id0 => PrintT("INFO " \o ToJson(Info))
 
